@@ -230,7 +230,9 @@ Section File.
           POk (mkt (h_name h) (h_link h) (h_size h) ty off (h_voff h) (h_visor h) (h_text h) (h_fix h)) tell1 tell1
         else if (ty =? GNUTYPE_LONGNAME) || (ty =? GNUTYPE_LONGLINK) then
           if h_size h <? 0 then PUnmod else
-          let buf2 := rd f tell1 (block (h_size h)) in
+          (* fileobj.read(n) returns at most what is left: the request is clipped before it is turned into a
+             unary count, so that an absurd size field costs nothing to evaluate *)
+          let buf2 := rd f tell1 (Z.min (block (h_size h)) (blen f)) in
           let tell2 := tell1 + blen buf2 in
           match fromtarfile fuel' tell2 with
           | POk t tl o =>
